@@ -561,6 +561,8 @@ def run_haplotag(
             raise CommandLineError(f"Error while loading alignment file {alignment_file}: {err}")
         # This checks also sample compatibility with VCF
         shared_samples = compute_shared_samples(bam_reader, ignore_read_groups, use_vcf_samples)
+        # Calls of the other samples in the VCF need not have the ploidy of the tagged ones
+        vcf_reader.samples_of_interest = set(shared_samples)
 
         # Check if user has specified a subset of regions per chromosome
         user_regions = normalize_user_regions(regions, bam_reader.references)
